@@ -211,7 +211,7 @@ def witnesses():
     behs = []
     wdir = os.path.join(vlib.VERIF, "findings")
     for f in sorted(os.listdir(wdir)) if os.path.isdir(wdir) else []:
-        if f.startswith("C18_") and f.endswith(".json"):
+        if f.startswith("C18_") and not f.startswith("C18_fetcher_") and f.endswith(".json"):
             behs += json.load(open(os.path.join(wdir, f)))["behaviours"]
     return behs
 
@@ -249,6 +249,7 @@ def run(ctx):
         judge(ctx, cfg_of_init(b[0]), [b], "W%d" % i)
     if not quick and first:
         selftest(ctx, *first)
+    fetcher_stage(ctx)
     fired = ctx.cov.get("clauses_fired", {})
     idle = sorted(k for k in ("InOrderGapFree", "EachOnce", "BodyMatchesHeader", "WorkNeverLost", "NoDoubleAssign", "CompletesWithHonestPeer")
                   if not fired.get(k))
@@ -258,7 +259,171 @@ def run(ctx):
         raise vlib.Undecided("design-level counterexample (%s) did not reproduce on the real code: specification drift" % mviol)
 
 
+# ============================================================================ fetcher route (you/fetcher/fetcher.go)
+F_CONST = """CONSTANTS
+  Peers = {%(peers)s}
+  Hon = {}
+  N = %(N)d
+  ForkAt = %(forkat)d
+  BadHdr = {%(bad)s}
+  HL = %(HL)d
+  BL = %(BL)d
+  UD = %(UD)d
+  QD = %(QD)d
+  MaxOps = %(ops)d
+  GenMode = "%(gen)s"
+  Strict = %(strict)s
+  BodyCheck = %(bodycheck)s
+  NegFix = %(negfix)s
+"""
+# set (or VERIF_C18_FETCHER_REPAIRED=1) once findings/C18_fetcher_proposed_repair.patch or an equivalent is in /repo
+FETCHER_REPAIRED = os.environ.get("VERIF_C18_FETCHER_REPAIRED", "") == "1"
+F_ALL = "I_Once I_Parent I_Body I_Verif I_Bound"
+F_CLAUSES = ("FetcherImportedOnce", "FetcherParentBeforeChild", "FetcherBodyMatchesHeader", "FetcherNoImportOfUnverified",
+             "FetcherBoundedState", "FetcherCompletes")
+REAL = dict(HL=256, BL=64, UD=7, QD=32)
+SMALL = dict(HL=2, BL=2, UD=1, QD=2)
+
+
+def f_consts(lim, peers=2, extra_peers=(), N=3, forkat=2, bad=(), ops=0, gen="none", strict="FALSE"):
+    ps = ['"p%d"' % i for i in range(1, peers + 1)] + ['"%s"' % p for p in extra_peers]
+    rep = "TRUE" if FETCHER_REPAIRED else "FALSE"
+    return F_CONST % dict(peers=", ".join(ps), N=N, forkat=forkat, bad=", ".join(str(b) for b in bad), ops=ops, gen=gen, strict=strict,
+                          bodycheck=rep, negfix=rep, **lim)
+
+
+def fetcher_judge(ctx, behs, bad, tag, conformance=True):
+    bpath = ctx.path("fetcher_behaviours_%s.ndjson" % tag)
+    vlib.write_ndjson(bpath, behs)
+    trace = ctx.path("fetcher_trace_%s.ndjson" % tag)
+    ctx.drive("fetcher", trace, opts={"beh": bpath, "par": 24}, timeout=1200)
+    ctx.cov["traces_validated_against_impl"] += len(behs)
+    ctx.cov["evaluations"] += len(behs)
+    ctx.cov["fetcher_behaviours"] = ctx.cov.get("fetcher_behaviours", 0) + len(behs)
+    result, _ = vlib.monitor(ctx, "Fetcher_Mon", "Fetcher_Mon.cfg", trace, name="FMon_%s" % tag, behaviours=bpath,
+                             replay_meta={"driver": "fetcher"})
+    ctx.cov["fetcher_events"] = ctx.cov.get("fetcher_events", 0) + result.get("events", 0)
+    if conformance:
+        conf = ctx.tlc("Fetcher_Trace", T_CFG + f_consts(REAL, extra_peers=("hp",), bad=bad, ops=1000000), name="FConf_%s" % tag,
+                       files={"trace.ndjson": trace}, workers=1, timeout=1500, count=False, xss="256m")
+        acc = [v for v in conf.printed if isinstance(v, dict) and v.get("kind") == "ACCEPTED"]
+        rej = [v for v in conf.printed if isinstance(v, dict) and v.get("kind") == "REJECTED"]
+        if acc:
+            ctx.cov["fetcher_conformance_%s" % tag] = "accepted %d events" % acc[0]["events"]
+        else:
+            ctx.cov["drift_events"] += 1
+            ctx.cov["fetcher_conformance_%s" % tag] = "rejected: %s" % (json.dumps(rej[0])[:700] if rej else (conf.error or conf.violated or "no verdict"))
+            print("DRIFT: property=C18 the real fetcher left the design layer of Fetcher.tla: %s" % ctx.cov["fetcher_conformance_%s" % tag], flush=True)
+    return trace, result
+
+
+def fetcher_stage(ctx):
+    """The announced-block route to the importer: spec/Fetcher.tla, driver `fetcher`, Fetcher_Mon / Fetcher_Trace."""
+    quick = ctx.quick
+    ctx.assumptions += ["fetcher route: this fetcher asks for whole blocks by hash (no header/body filtering stage exists in the code); events are "
+                        "observed at quiescence (one loop event, then every import it makes possible); interleavings of imports with further events "
+                        "are not driven",
+                        "fetcher route: hashLimit/blockLimit/distances are constants of the package (256/64/7/32): the limits are exercised with small "
+                        "values at design level and hashLimit with a 260-announce flood on the real code; blockLimit is not reachable with a 4-block chain",
+                        "fetcher route: time passes by rewriting announce timestamps on the loop goroutine (announces are stamped one hour ahead; "
+                        "Wave makes them due and waits for the fetcher's own timer, Expire makes running fetches older than fetchTimeout)",
+                        "fetcher route: the stub importer accepts a block iff its parent is known and its transactions match the header"]
+    # M: weakened run over small limits; strict runs export the counterexamples of the known classes
+    cex = []
+    if not FETCHER_REPAIRED:
+        for name, inv in (("body", "I_Body"), ("bound", "I_Bound")):
+            m = ctx.tlc_must("Fetcher", "SPECIFICATION Spec\nINVARIANTS %s\nVIEW View\nCHECK_DEADLOCK FALSE\n" % inv +
+                             f_consts(SMALL, ops=4, strict="TRUE"), name="FM_strict_" + name, timeout=900)
+            got = [v for v in m.printed if isinstance(v, dict) and v.get("kind") == "CEX"]
+            if got:
+                cex.append((got[0]["clause"], got[0]["h"]))
+                ctx.note("fetcher: design-level counterexample for %s (strict run) exported for replay" % got[0]["clause"])
+    mviol = None
+    for bad, depth in (((), 5 if quick else 6), ((4,), 4 if quick else 5)):
+        m = ctx.tlc_must("Fetcher", "SPECIFICATION Spec\nINVARIANTS %s\nVIEW View\nCHECK_DEADLOCK FALSE\n" % F_ALL +
+                         f_consts(SMALL, bad=bad, ops=depth, strict="TRUE" if FETCHER_REPAIRED else "FALSE"),
+                         name="FM_bad%d" % len(bad), timeout=1800, coverage=not quick)
+        mviol = mviol or m.violated
+        for v in m.printed:
+            if isinstance(v, dict) and v.get("kind") == "CEX":
+                cex.append((v["clause"], v["h"]))
+                break
+    ctx.cov["fetcher_design_violation"] = mviol
+    # witnesses and counterexamples first
+    wit = []
+    wdir = os.path.join(vlib.VERIF, "findings")
+    for f in sorted(os.listdir(wdir)):
+        if f.startswith("C18_fetcher_") and f.endswith(".json"):
+            wit += json.load(open(os.path.join(wdir, f)))["behaviours"]
+    first = wit + [h for _, h in cex]
+    unreproduced = []
+    if first:
+        # counterexamples come from the small-limit model: they are judged by the monitor only
+        _, res = fetcher_judge(ctx, first, (), "W", conformance=False)
+        for clause, _ in cex:
+            if not any(v[0] == clause for v in res.get("viol", [])):
+                unreproduced.append(clause)
+    # G2: simulated schedules (real limits), two chains: all headers good / the fork block's header bad
+    rnd = random.Random(ctx.seed)
+    for bad, num, keep in (((), 40 if quick else 400, 50 if quick else 500), ((4,), 30 if quick else 300, 40 if quick else 400)):
+        tag = "G%d" % len(bad)
+        g = ctx.tlc_must("Fetcher", G_CFG + f_consts(REAL, bad=bad, ops=8 if quick else 10, gen="leaf"), name="FG2_" + tag, timeout=900,
+                         simulate={"num": num}, depth=(8 if quick else 10) + 2)
+        seen, uniq = set(), []
+        for v in g.printed:
+            if isinstance(v, dict) and v.get("kind") == "B":
+                k = json.dumps(v["h"], sort_keys=True)
+                if k not in seen:
+                    seen.add(k)
+                    uniq.append(v["h"])
+        rnd.shuffle(uniq)
+        behs = uniq[:keep]
+        if not bad:
+            # the flood: one peer announces 260 hashes nobody can deliver, the timer asks for them, the fetches time out
+            init = {"op": "Init", "peers": ["p1", "p2"], "n": 3, "forkat": 2, "bad": []}
+            flood = [init] + [{"op": "Notify", "p": "p1", "b": 0, "nk": "zero"}] * 260 + [{"op": "Notify", "p": "p2", "b": 1, "nk": "true"}, {"op": "Wave"},
+                                                                                        {"op": "Deliver", "p": "p2", "b": 1, "ok": True}, {"op": "Expire"}]
+            behs = [flood] + behs
+        for b in behs[1:2]:
+            ctx.sample(b)
+        trace, _ = fetcher_judge(ctx, behs, bad, tag)
+        if not bad:
+            keep_trace = trace
+    if not quick:
+        # binding self-test: a corrupted counter in a recorded snapshot must be rejected
+        ev = vlib.read_ndjson(keep_trace)
+        for i, e in enumerate(ev):
+            if e.get("ev") == "Notify" and e["obs"]["ann"].get(e["args"]["p"], 0) > 0 and i > 300:
+                e["obs"]["ann"][e["args"]["p"]] += 1
+                bad_line = i + 1
+                break
+        else:
+            bad_line = None
+        if bad_line:
+            pth = ctx.path("fetcher_trace_corrupt.ndjson")
+            vlib.write_ndjson(pth, ev[:bad_line + 3])
+            conf = ctx.tlc("Fetcher_Trace", T_CFG + f_consts(REAL, extra_peers=("hp",), ops=1000000), name="FConf_selftest",
+                           files={"trace.ndjson": pth}, workers=1, timeout=600, count=False, xss="256m")
+            rej = [v for v in conf.printed if isinstance(v, dict) and v.get("kind") == "REJECTED"]
+            ctx.cov["fetcher_binding_selftest"] = "corrupted line %d rejected at line %s" % (bad_line, rej[0]["line"] if rej else None)
+            if not rej or rej[0]["line"] != bad_line:
+                raise vlib.Undecided("fetcher trace-checker self-test failed: corrupted counter not rejected")
+    fired = ctx.cov.get("clauses_fired", {})
+    idle = sorted(k for k in F_CLAUSES if not fired.get(k))
+    if ctx.violations:
+        return
+    if idle:
+        raise vlib.Undecided("fetcher monitor clauses never fired: %s" % idle)
+    if unreproduced:
+        raise vlib.Undecided("fetcher: design-level counterexample for %s did not reproduce on the real code: specification drift" % sorted(set(unreproduced)))
+    if mviol:
+        raise vlib.Undecided("fetcher: design-level violation %s in the weakened run" % mviol)
+
+
 def replay(ctx, path):
     data = json.load(open(path))
     for i, b in enumerate(data["behaviours"]):
-        judge(ctx, cfg_of_init(b[0]), [b], "R%d" % i)
+        if data.get("meta", {}).get("driver") == "fetcher" or "forkat" in b[0]:
+            fetcher_judge(ctx, [b], tuple(b[0].get("bad", [])), "R%d" % i)
+        else:
+            judge(ctx, cfg_of_init(b[0]), [b], "R%d" % i)
